@@ -80,6 +80,8 @@ type Hooks struct {
 	AfterBuild func(r *rig.Rig, sc *Scenario)
 	// NoStart: the runner does not start the pipeline itself.
 	NoStart bool
+	// Build, if set, creates the entities instead of rig.Build (plugin scripts are installed first).
+	Build func(r *rig.Rig, sc *Scenario) error
 }
 
 // Run executes the scenario on a fresh rig. All waits inside are harness
@@ -106,7 +108,14 @@ func Run(sc *Scenario, hooks *Hooks) *Outcome {
 	}
 	out.Rig = r
 	ctx := context.Background()
-	if err := r.Build(ctx, sc.Topo); err != nil {
+	if hooks != nil && hooks.Build != nil {
+		r.ApplyScripts(sc.Topo)
+		if err := hooks.Build(r, sc); err != nil {
+			out.Inconclusive = "build: " + err.Error()
+			out.Evs = r.Log.Close()
+			return out
+		}
+	} else if err := r.Build(ctx, sc.Topo); err != nil {
 		out.Inconclusive = "build: " + err.Error()
 		out.Evs = r.Log.Close()
 		return out
